@@ -201,6 +201,14 @@ SkipGradIsDerivative ==
   (Mode = "skip" /\ phase = "done" /\ CheckFD) =>
     \A seed \in DataSeeds : GradOK([net EXCEPT !.skipacc = "add"], InputOf(net, seed), UpstreamOf(net, seed))
 
+\* Frame condition: the loop accumulation is read only where a loop connection exists, the skip accumulation only where a
+\* skip connection exists (the blocks keep their own) -- the setting that does not apply changes nothing.
+OtherAccumulationIrrelevant ==
+  (phase = "done" /\ Mode \in {"skip", "loop"} /\ ~CheckFD) =>
+    \A seed \in DataSeeds : \A b \in Accs :
+       /\ net.loops = {} => Predict([net EXCEPT !.loopacc = b], InputOf(net, seed)) = Predict(net, InputOf(net, seed))
+       /\ net.connect = {} => Predict([net EXCEPT !.skipacc = b], InputOf(net, seed)) = Predict(net, InputOf(net, seed))
+
 \* ---- emission ---------------------------------------------------------------------------------------------
 LayerJson(L) ==
   IF L.kind = "fb"
